@@ -38,6 +38,40 @@ pub fn take_pre_cycles() -> Vec<Value> {
     PRE_CYCLES.with(|p| std::mem::take(&mut *p.borrow_mut()))
 }
 
+thread_local! {
+    static NAME_REUSE: RefCell<Vec<Value>> = const { RefCell::new(Vec::new()) };
+}
+
+/// Called by `assign_type` when a named type is resolved to an existing type
+/// of the same name: records the event when the two differ in more than the
+/// fields that finalization fills in.
+pub(crate) fn record_name_reuse(ts: &TypeSpace, name: &str, existing: &TypeId, new: &TypeEntry) {
+    let Some(old) = ts.id_to_entry.get(existing) else {
+        return;
+    };
+    let shape = |e: &TypeEntry| {
+        let mut v = dump_entry(e);
+        if let Some(o) = v.as_object_mut() {
+            for k in ["bespoke", "default", "extra_derives", "impls"] {
+                o.remove(k);
+            }
+        }
+        v
+    };
+    let (a, b) = (shape(old), shape(new));
+    if a != b {
+        NAME_REUSE.with(|p| {
+            p.borrow_mut()
+                .push(json!({"name": name, "id": existing.0, "existing": a, "new": b}))
+        });
+    }
+}
+
+/// Take (and clear) the name-reuse events recorded on this thread.
+pub fn take_name_reuse() -> Vec<Value> {
+    NAME_REUSE.with(|p| std::mem::take(&mut *p.borrow_mut()))
+}
+
 fn case(pascal: bool) -> Case {
     if pascal {
         Case::Pascal
